@@ -53,6 +53,10 @@ CHECKS = {
          "TLC proves exhaustively (2 sessions x 2 exchange ids - the same id may be live on both -, 2 responder handlers, 3-4 peer datagrams with any session / exchange id / initiator flag / reliable flag, a stray datagram, every handler policy reply / drop / hold / answer-reliably-and-drop, the last of which makes the device close the whole session) that the receive-slot machine transcribed from transport.rs / exchange.rs (RxSlot.tla) hands a message only to the owner of its (session, exchange), opens an exchange only for an allowed first message, and - under fairness of the sweepers and the owners - always frees the single receive slot and ends with no exchange left (liveness: SlotEventuallyFree, EventuallyClean). TLC-simulated disturbance schedules (2 sessions x 3 exchange ids, 8 datagrams, random policies) plus harness-made ones (unsecured strays, colliding exchange ids across sessions with a waiting owner, a message parked for accept while its session is closed under it) are replayed against a real device Matter with two policy-driven handlers; the peer is a raw injector holding the keys of three planted sessions; after the recovery horizon a fresh request on the third session must be answered, no exchange may be left, and a session the device gave up must have been closed with a CloseSession on the wire. TLC validates the recorded Inj / AppRx / Tx / Probe / End traces against Layer P (RxSlotProp.tla); handlers report the (session, exchange) they own from the device's own tables.",
          "Trusted: TLC; liveness is decided on the model and observed on the real stack only as the bounded probe (answered within the recovery horizon, zero exchanges left). One device, three sessions.",
          "TLA+ model checking incl. liveness (TLC) + TLC-generated disturbance schedules replayed on the real stack + TLC trace validation", "DESIGN.md section 4 C10"),
+ "C02": ("model_checking",
+         "TLC proves exhaustively (2 initiators that know / do not know the passcode and may garble any one of their three messages, window opened / closed by the administrator, ~70 s passing, the device handling the initiators' messages one at a time in every interleaving, revocation at 3 failures, up to 12 operations) that the device-side PASE machine transcribed from sc/pase/responder.rs and sc/pase.rs (Pase.tla) creates a session only with the window open and only for a proof that verifies, counts every failed proof and revokes the window at the limit; the same model without the window check at Pake3 (the code as found) must violate SessionOnlyWhileOpen. Every behaviour of the one-initiator model of 7 operations (thorough; a deterministic sample in the quick tier), TLC simulations of the two-initiator model and harness-made schedules (20 wrong passcodes in a row, window expiring or closed while Pake3 / Pake1 is held back in the network, window re-opened, concurrent second initiator, device answers lost after the k-th, garbled device answers) are replayed in the handshake world: a real device (full stack) and real PaseInitiators on the simulated network, handshake messages released one by one as the schedule says. TLC validates the recorded traces (window events, attempts, the device's session table as it changes, failure counter, what mdns_services advertises) against Layer P (PaseProp.tla).",
+         "Trusted: TLC; the SPAKE2+ primitive. 'Mutated message' = a byte flipped in the TLV payload of one handshake message (every index, both directions); invalid curve points only as far as such flips produce them. The expiry polling period is taken as 1.5 s.",
+         "TLA+ model checking (TLC) + TLC-generated (exhaustive and simulated) schedules replayed on the real stacks + TLC trace validation", "DESIGN.md section 4 C02"),
 }
 
 NOT_YET = "check not built yet in this tree (see DESIGN.md section 7 for the build order); not claimed"
